@@ -371,8 +371,10 @@ class Outcome:
         }
         if self.notes:
             ev['coverage']['notes'] = self.notes
-        EVIDENCE.mkdir(parents=True, exist_ok=True)
-        with (EVIDENCE / f'{self.prop}.json').open('w') as f:
+        # checks beyond the listed properties (X..) keep their evidence apart from the per-property files
+        evdir = EVIDENCE if self.prop.startswith('C') else EVIDENCE / 'extra'
+        evdir.mkdir(parents=True, exist_ok=True)
+        with (evdir / f'{self.prop}.json').open('w') as f:
             json.dump(ev, f, indent=1, default=str)
         return code
 
